@@ -159,6 +159,7 @@ pub fn check_query(c: &QueryCase) -> CaseResult {
     let delays: Vec<(&'static str, u32, u32)> = c.delays.iter().map(|(occ, us)| ("store.cmd.begin", *occ as u32, *us as u32)).collect();
     let plan = if c.controlled { Plan { steps, delays, gate_timeout_ms: 300 } } else { Plan { steps: vec![], delays, gate_timeout_ms: 1 } };
     let installed = sched::install(plan);
+    let mut concurrent_owned = false;
     ctl.slow_metric_us.store(c.slow_metric_us as u32, std::sync::atomic::Ordering::Relaxed);
     let (ok_resp, err_resp) = if c.owned { store.owned_track_distances(&ids, c.class, c.only_baked) } else { store.foreign_track_distances(cand_tracks, c.class, c.only_baked) };
     if c.slow_metric_us > 0 {
@@ -174,6 +175,44 @@ pub fn check_query(c: &QueryCase) -> CaseResult {
             }
             std::thread::sleep(std::time::Duration::from_micros(150));
         }
+    }
+    // While the (slowed down) workers are scanning for a foreign query, the caller runs an owned
+    // query for stored tracks: "leaves the store unchanged" holds at every moment, so the query in
+    // flight must still see every stored track (its own results are judged below as usual), and
+    // the owned query returns the sequential answer.
+    if !c.owned && c.slow_metric_us > 0 && !c.owned_ids.is_empty() && !c.controlled {
+        let mut oids: Vec<u64> = vec![];
+        for id in &c.owned_ids {
+            if !oids.contains(id) {
+                oids.push(*id);
+            }
+        }
+        ctl.slow_clone_us.store(150, std::sync::atomic::Ordering::Relaxed);
+        let (o_ok, o_err) = store.owned_track_distances(&oids, c.class, c.only_baked);
+        ctl.slow_clone_us.store(0, std::sync::atomic::Ordering::Relaxed);
+        let o_raw = o_ok.all();
+        let _ = o_err.all();
+        let mut o_want: Vec<Item> = vec![];
+        for id in &oids {
+            if let Some(cm) = model.get(id) {
+                for s_ in model.values() {
+                    if s_.id == cm.id || (c.only_baked && s_.status() != Ok("ready")) {
+                        continue;
+                    }
+                    if let Ok(v) = cm.distances(s_, c.class) {
+                        o_want.extend(v.into_iter().map(|(f, t, a, d)| (f, t, a, d.map(|x| x as i32))));
+                    }
+                }
+            }
+        }
+        let o_got: Vec<Item> = o_raw.iter().map(|m| (m.from, m.to, m.attribute_metric, m.feature_distance.map(|x| x as i32))).collect();
+        if norm(o_got.clone()) != norm(o_want.clone()) {
+            ctl.slow_metric_us.store(0, std::sync::atomic::Ordering::Relaxed);
+            let _ = ok_resp.all();
+            let _ = err_resp.all();
+            return Err(Fail::new("distance-results-owned", format!("an owned query issued while a foreign query is in flight returns {} results, expected {}", o_got.len(), o_want.len())));
+        }
+        concurrent_owned = true;
     }
     let (raw, errs) = if c.drop_half == 1 {
         // the results are of no interest to this caller: the errors must still all arrive
@@ -244,6 +283,7 @@ pub fn check_query(c: &QueryCase) -> CaseResult {
         .label_if(c.only_baked, "only_baked")
         .label_if(merged > 0, "stored_tracks_with_merge_history")
         .label_if(c.drop_half > 0, "one_stream_dropped_unread")
+        .label_if(concurrent_owned, "owned_query_while_foreign_query_in_flight")
         .label_if(want.is_empty(), "no_results"))
 }
 
